@@ -81,23 +81,29 @@ RowReadVerdict(rows, n, r, got) == IF Show(got, n) # Show(rows[r + 1], n) THEN "
 
 (* ---------------- L2 ---------------- *)
 Spaces(k) == << <<[j \in 1..k |-> 32], NoAtts>> >>
-\* FmtStr.setslice_with_length(start, end, fs, length): <<status, row>>
-ImplSetslice(row, s, e, v, n) ==
+\* FmtStr.setslice_with_length(start, end, fs, length): <<status, row>>.  isstr: fs was handed over as a plain str -
+\* the padding spaces are then concatenated to it as text (one unformatted run); a FmtStr gets them as runs of their own
+ImplSetslice(row, s, e, v, n, isstr) ==
   LET l == VLen(row)
-      v1 == IF l < s THEN Spaces(s - l) \o v ELSE v
+      txt(k) == [j \in 1..k |-> 32]
+      lead == IF l < s THEN s - l ELSE 0
+      v1 == IF lead = 0 THEN v ELSE IF isstr THEN << <<txt(lead) \o Text(v), NoAtts>> >> ELSE Spaces(lead) \o v
       short == e - s - VLen(v1)
-      v2 == IF l > e THEN (IF short >= 0 THEN v1 \o Spaces(short) ELSE v1) ELSE v1
+      v2 == IF l > e /\ short > 0 THEN (IF isstr THEN << <<Text(v1) \o txt(short), NoAtts>> >> ELSE v1 \o Spaces(short)) ELSE v1
       bad == l > e /\ VLen(v2) # e - s
       res == ImplSplice(row, v2, s, e, 0)
   IN IF bad THEN <<"AssertionError", row>>
      ELSE IF VLen(res) > n THEN <<"ValueError", row>> ELSE <<"ok", res>>
 
-\* FSArray.__setitem__ for a[r0:r1, c0:c1] = block; blank = the constructor's empty row; returns <<status, rows>>
-ImplAssign(rows, n, blank, r0, r1, c0, c1, block) ==
+\* FSArray.__setitem__ for a[r0:r1, c0:c1] = block; blank = the constructor's empty row; strs[k]: block row k is a
+\* plain str; returns <<status, rows>>
+ImplAssignS(rows, n, blank, r0, r1, c0, c1, block, strs) ==
   LET grown == rows \o [k \in 1..Max2(0, r1 - Len(rows)) |-> blank]
-      res(k) == ImplSetslice(grown[r0 + k], c0, c1, block[k], n)
+      res(k) == ImplSetslice(grown[r0 + k], c0, c1, block[k], n, strs[k])
   IN IF c1 - c0 <= 0 \/ r1 - r0 <= 0 THEN <<"ok", grown>>
      ELSE IF Len(block) # r1 - r0 THEN <<"ValueError", rows>>
      ELSE IF \E k \in 1..Len(block) : res(k)[1] # "ok" THEN <<"Error", rows>>
      ELSE <<"ok", [r \in 1..Len(grown) |-> IF r > r0 /\ r <= r1 THEN res(r - r0)[2] ELSE grown[r]]>>
+ImplAssign(rows, n, blank, r0, r1, c0, c1, block) ==
+  ImplAssignS(rows, n, blank, r0, r1, c0, c1, block, [k \in 1..Len(block) |-> FALSE])
 =============================================================================
